@@ -1,8 +1,69 @@
 //! Verification hook (compiled only with `--cfg quinn_rs_quinn_verif`).
+//!
+//! Component: `assembler` (`connection/assembler.rs`), model `coq/Model/Assembler.v`.
 #![allow(missing_docs, dead_code, unused_imports, unreachable_pub, clippy::all)]
 use super::{Ops, Outs};
+use crate::connection::assembler::Assembler;
+use bytes::Bytes;
 
-/// Interpret `ops` for component `comp`; `None` if `comp` is not served by this module.
-pub(crate) fn run(_comp: &str, _ops: &Ops) -> Option<Outs> {
-    None
+/// assembler ops (one `Assembler::new()` per case):
+///   [0, offset, allocation_size, b0, b1, ...]  insert            -> [0] ok | [1] TooManyChunks
+///   [1, max_length, ordered]   ensure_ordering(ordered)? then read(max_length, ordered)
+///                                                  -> [0] none | [1, offset, bytes...] | [2] IllegalOrderedRead
+///   [2, ordered]               ensure_ordering    -> [0] ok | [1] IllegalOrderedRead
+///   [3]                        bytes_read         -> [n]
+///   [4]                        clear              -> [0]
+///   [5]                        reinit             -> [0]
+///   [6]                        probe              -> see `Assembler::verif_probe`
+///   [7, salt]                  no-op carrying the salt of the written pattern -> [0]
+fn assembler(ops: &Ops) -> Outs {
+    let mut a = Assembler::new();
+    ops.iter()
+        .map(|op| match op[0] {
+            0 => {
+                let b: Vec<u8> = op[3..].iter().map(|x| *x as u8).collect();
+                match a.insert(op[1] as u64, Bytes::from(b), op[2] as usize) {
+                    Ok(()) => vec![0],
+                    Err(_) => vec![1],
+                }
+            }
+            1 => {
+                let ordered = op[2] != 0;
+                if a.ensure_ordering(ordered).is_err() {
+                    return vec![2];
+                }
+                match a.read(op[1] as usize, ordered) {
+                    None => vec![0],
+                    Some(c) => {
+                        let mut o = vec![1, c.offset as i128];
+                        o.extend(c.bytes.iter().map(|x| *x as i128));
+                        o
+                    }
+                }
+            }
+            2 => match a.ensure_ordering(op[1] != 0) {
+                Ok(()) => vec![0],
+                Err(_) => vec![1],
+            },
+            3 => vec![a.bytes_read() as i128],
+            4 => {
+                a.clear();
+                vec![0]
+            }
+            5 => {
+                a.reinit();
+                vec![0]
+            }
+            6 => a.verif_probe(),
+            7 => vec![0],
+            _ => vec![-1],
+        })
+        .collect()
+}
+
+pub(crate) fn run(comp: &str, ops: &Ops) -> Option<Outs> {
+    match comp {
+        "assembler" => Some(assembler(ops)),
+        _ => None,
+    }
 }
